@@ -25,6 +25,7 @@ type c02Case struct {
 	Kind string  `json:"kind"` // "p2", "p1", "create2", "create1", "disk"
 	P2   *p2Case `json:"p2,omitempty"`
 	P1   *p1Case `json:"p1,omitempty"`
+	Ref  *c10Case `json:"ref,omitempty"` // kind "p1ref": a PAR1 set written by the reference writer (entries not saved in the parity set among the saved ones, a comment), judged with the same write oracle
 	// disk: the exported API on a real directory full of decoy files
 	Fmt   string `json:"fmt,omitempty"`
 	State string `json:"state,omitempty"` // intact, missing0, changed1, two, all, beyond
@@ -146,6 +147,35 @@ func c02Gen(g *core.Gen) {
 			}
 			g.Emit(&c02Case{Kind: "p2", P2: &p2Case{Cfg: bigCfg, Dmg: ds, G: 2, DoubleCheck: k%2 == 1, Extra: c02Extras}})
 		})
+	}
+	// PAR1 sets from the reference writer: every status pattern over 4 entries with >= 2 saved ones (non-saved entries
+	// before / between / after them) x every non-empty subset of up to 2 saved files missing or corrupted
+	for mask := 0; mask < 16; mask++ {
+		var st []int
+		var savedIx []int
+		for i := 0; i < 4; i++ {
+			if mask&(1<<uint(i)) != 0 {
+				st = append(st, 1)
+				savedIx = append(savedIx, i)
+			} else {
+				st = append(st, 0)
+			}
+		}
+		if len(savedIx) < 2 {
+			continue
+		}
+		for a := 0; a < len(savedIx); a++ {
+			for _, corrupt := range []bool{false, true} {
+				ma := savedIx[a] // >= 0: that entry's file is deleted; -(i+1): entry i's file is corrupted
+				if corrupt {
+					ma = -(savedIx[a] + 1)
+				}
+				g.Emit(&c02Case{Kind: "p1ref", Ref: &c10Case{Dir: "read", Status: st, Comment: mask % 4, NameSet: mask % 3, Missing: []int{ma}, DC: a%2 == 0}})
+				for b := a + 1; b < len(savedIx); b++ {
+					g.Emit(&c02Case{Kind: "p1ref", Ref: &c10Case{Dir: "read", Status: st, Comment: 0, NameSet: (mask + 1) % 3, Missing: []int{ma, savedIx[b]}, DC: b%2 == 0}})
+				}
+			}
+		}
 	}
 	// PAR1
 	for _, cfg := range []scen.P1Config{{Sizes: []int{7, 3, 5}, Volumes: 2}, {Sizes: []int{4, 9}, Volumes: 3}, {Sizes: []int{6, 0, 2, 8}, Volumes: 2}} {
@@ -300,7 +330,7 @@ func init() {
 	core.Register(&core.Prop{
 		ID:    "C02",
 		Level: "model_checking",
-		Rule: "bounded-exhaustive archive states (plus a PAR2 set whose protected files live in sub-directories and share base names with each other and with unrelated files beside the index, all combinations of <=2 operators): PAR2 default sets with ALL combinations of <=3 operators (thorough: additionally all pairs, and for the default set all triples, over the FULL per-offset data menu plus the recovery-file operators) from {data damage menu} U {recovery file replaced by a well-formed file with wrong blocks, payload flip, truncation, emptied, foreign-set recovery file, deleted}, double-check on and off, unrelated files / sub-directory / look-alike names beside the set; " +
+		Rule: "PAR1 sets written by the reference writer (every status pattern over 4 entries with >= 2 saved ones x one or two saved files deleted / corrupted, comment variants) under the same write oracle; bounded-exhaustive archive states (plus a PAR2 set whose protected files live in sub-directories and share base names with each other and with unrelated files beside the index, all combinations of <=2 operators): PAR2 default sets with ALL combinations of <=3 operators (thorough: additionally all pairs, and for the default set all triples, over the FULL per-offset data menu plus the recovery-file operators) from {data damage menu} U {recovery file replaced by a well-formed file with wrong blocks, payload flip, truncation, emptied, foreign-set recovery file, deleted}, double-check on and off, unrelated files / sub-directory / look-alike names beside the set; " +
 			"PAR1 full product of per-file damage {ok,deleted,changed,truncated,emptied,garbage} x per-volume {ok,deleted,corrupt,foreign,truncated} x double-check; Create on a size grid. " +
 			"Oracle from the recorder: every write during Repair targets a protected path with exactly the protected bytes and is listed in the result; every other directory entry is byte-identical afterwards; Verify performs no write; Create writes only set files and changes nothing else. non-trivial = Repair wrote or failed",
 		Assumptions: []string{"all filesystem access of par1/par2 goes through the fileIO seam (asserted by a source lint in this check)", "a path listed in the result but not written is outside the statement (counted, not alarmed)"},
@@ -316,6 +346,8 @@ func init() {
 				runP2(c.P2, r, p2Clauses{WriteOracle: true})
 			case "p1":
 				runP1(c.P1, r, p1Clauses{WriteOracle: true})
+			case "p1ref":
+				c10ReadDir(c.Ref, r)
 			case "disk":
 				c02Disk(c, r)
 			default:
